@@ -8,6 +8,7 @@ import (
 	"math"
 	"os"
 	"strings"
+	"time"
 
 	. "adharness/common"
 
@@ -113,16 +114,36 @@ func safeWorldHash(tk *tracker, trees []*ad.AvlTree, iters []*ad.AvlIterator) (h
 	return tk.worldHash(trees, iters), false
 }
 
-// safeExecOne runs one operation and turns a panic of the implementation into
-// an outcome kind (checksum -777) instead of killing the harness.
-func safeExecOne(o Op, ptrees *[]*ad.AvlTree, piters *[]*ad.AvlIterator) (r Out, panicked bool) {
-	defer func() {
-		if e := recover(); e != nil {
-			r = Out{F: false, V: 0, H: -777, L: []int64{}}
-			panicked = true
-		}
+// safeExecOne runs one operation and turns a panic of the implementation into an outcome
+// kind (checksum -777) instead of killing the harness; an operation that does not return
+// within opTimeout (a loop through broken links of a mutated library: the parent climb of
+// Next, the descent of Iterator) becomes the outcome kind -778, the goroutine is abandoned
+// and the harness stops generating further histories (hangs > 0).
+var hangs int
+
+const opTimeout = 3 * time.Second
+
+func safeExecOne(o Op, ptrees *[]*ad.AvlTree, piters *[]*ad.AvlIterator) (Out, bool) {
+	type res struct {
+		r Out
+		p bool
+	}
+	ch := make(chan res, 1)
+	go func() {
+		defer func() {
+			if e := recover(); e != nil {
+				ch <- res{Out{F: false, V: 0, H: -777, L: []int64{}}, true}
+			}
+		}()
+		ch <- res{execOne(o, ptrees, piters), false}
 	}()
-	return execOne(o, ptrees, piters), false
+	select {
+	case x := <-ch:
+		return x.r, x.p
+	case <-time.After(opTimeout):
+		hangs++
+		return Out{F: false, V: 0, H: -778, L: []int64{}}, true
+	}
 }
 
 func execOne(o Op, ptrees *[]*ad.AvlTree, piters *[]*ad.AvlIterator) Out {
@@ -376,6 +397,9 @@ func main() {
 		key := fmt.Sprint(c.Ops)
 		w.Add(coqCase(c), c, key, st.maxsize >= 12 && st.midmut >= 3)
 		w.Count(fmt.Sprintf("maxsize>=%d", (st.maxsize/8)*8))
+		if hangs > 0 {
+			break // an operation of the implementation did not terminate: report what we have
+		}
 	}
 	if err := w.Flush(); err != nil {
 		Die("%v", err)
@@ -430,6 +454,9 @@ func hunt(o Opts) {
 			if f, _ := propCheck(c.Ops); f != "" {
 				report(c.Ops)
 				done = true
+			}
+			if hangs > 3 {
+				break
 			}
 		}
 	}
